@@ -25,8 +25,9 @@ import typestate  # noqa: E402
 class Ctx:
     """lazily built, cached views of /repo's current source"""
 
-    def __init__(self, tier):
+    def __init__(self, tier, base_overrides=None):
         self.tier = tier
+        self.base_overrides = dict(base_overrides or {})
         self._progs = {}
         self._eff = {}
 
@@ -34,6 +35,8 @@ class Ctx:
         return sorted(glob.glob(os.path.join(VERIF, "controls", "*.c")))
 
     def prog(self, config="release", overrides=None, optlevel=0, with_controls=True):
+        if self.base_overrides:
+            overrides = dict(self.base_overrides, **(overrides or {}))
         key = (config, tuple(sorted((overrides or {}).items())), optlevel, with_controls)
         if key not in self._progs:
             f = build.facts(config, overrides, optlevel, self.controls() if with_controls else None)
@@ -56,11 +59,41 @@ class Ctx:
         return self._eff[id(prog)]
 
 
+ALT_CONFIGS_QUICK = [{"CBOR_BUFFER_GROWTH": 3, "CBOR_MAX_STACK_SIZE": 5, "CBOR_PRETTY_PRINTER": 0}]
+ALT_CONFIGS_THOROUGH = ALT_CONFIGS_QUICK + [{"CBOR_BUFFER_GROWTH": 4, "CBOR_MAX_STACK_SIZE": 1},
+                                            {"CBOR_BUFFER_GROWTH": 7, "CBOR_MAX_STACK_SIZE": 64}]
+
+
 def run_property(pid, tier, seed):
     mod = importlib.import_module("props." + pid.lower())
     ctx = Ctx(tier)
     chk = report.Check(pid, tier, seed)
-    mod.run(ctx, chk)
+    broken = []
+
+    def guarded(c):
+        # a violation already established takes precedence over a later "cannot decide": the remaining rules of this
+        # configuration are skipped, the violation is reported (exit 1); without a violation the check is broken (exit 2)
+        try:
+            mod.run(c, chk)
+        except build.AnalysisBroken as e:
+            broken.append("%s%s" % (chk.scope, e))
+    guarded(ctx)
+    # the same rules again under alternative build configurations: a change that is right for the default
+    # CBOR_BUFFER_GROWTH / CBOR_MAX_STACK_SIZE / CBOR_PRETTY_PRINTER only (a literal where the macro belongs, an #if arm
+    # the default build never compiles) is judged in a configuration where it shows
+    alts = ALT_CONFIGS_THOROUGH if tier == "thorough" else ALT_CONFIGS_QUICK
+    if os.environ.get("VERIF_NO_ALT"):
+        alts = []
+    for ov in alts:
+        chk.scope = "[%s] " % ",".join("%s=%s" % (k.replace("CBOR_", ""), v) for k, v in sorted(ov.items()))
+        guarded(Ctx(tier, ov))
+    chk.scope = ""
+    if broken:
+        if any(not o["ok"] for o in chk.obs):
+            chk.floor_failures.extend(broken)
+        else:
+            raise build.AnalysisBroken("; ".join(broken))
+    chk.extra["configurations"] = ["default"] + [dict(a) for a in alts]
     if tier == "thorough" and not os.environ.get("VERIF_SELFTEST"):
         import corpus
         corpus.run_for(chk, pid)
